@@ -304,6 +304,15 @@ def clip_stage_diff(run, model, rec, nonrep, case, e, rng):
                  impl=[list(yl.shape), list(ry.shape), list(e2.shape)], model="(n, 1), (n, B), (n, B)")
         return False
     tol = 1e-9
+    # the hypotheses of source_clip_draws / ClipUnit.Feasible, on what the real run handed to the clip stage
+    if (np.any(yl > yu + tol) or np.any(yl < -1 - tol) or np.any(yu > 1 + tol) or np.any(zl < -tol) or np.any(zl > zu + tol)
+            or np.any(w < 0) or not (np.all(np.isfinite(yl)) and np.all(np.isfinite(yu)) and np.all(np.isfinite(zl)) and np.all(np.isfinite(zu)))):
+        run.diff("clip stage: the recorded clip bounds / weights do not meet the hypotheses of source_clip_draws (-1 <= yl <= yu <= 1, "
+                 "0 <= zl <= zu, w >= 0)", input=case, impl={"yl": [float(yl.min()), float(yl.max())], "yu": [float(yu.min()), float(yu.max())],
+                                                        "zl": [float(zl.min()), float(zl.max())], "zu": [float(zu.min()), float(zu.max())],
+                                                        "w_min": float(w.min())}, model="feasible", election=e.to_json())
+        return False
+    run.count("clip stage: hypotheses of source_clip_draws met by the recorded bounds")
     # estimated draws: inside the unit's own bounds (clip_mem)
     with np.errstate(all="ignore"):
         zdraw = np.where(w > 0, e3 / np.where(w > 0, w, 1), np.nan)
